@@ -41,8 +41,10 @@ pub enum Ev {
     T,
     /// peer asks for the session state (flow with echo)
     E,
+    /// like T, but the delivery is not settled: the application's accept() sends a disposition
+    TU,
 }
-pub const ALPHABET: [Ev; 11] = [Ev::S1, Ev::F1, Ev::F2, Ev::S3, Ev::F0, Ev::E, Ev::T, Ev::F5, Ev::FStale2, Ev::FStale0, Ev::FUnset2];
+pub const ALPHABET: [Ev; 12] = [Ev::S1, Ev::F1, Ev::F2, Ev::S3, Ev::F0, Ev::E, Ev::T, Ev::TU, Ev::F5, Ev::FStale2, Ev::FStale0, Ev::FUnset2];
 
 #[derive(Debug, Clone, Default)]
 pub struct Obs {
@@ -157,7 +159,7 @@ pub async fn scenario(x: u32, link_split: bool, events: Vec<Ev>) -> Obs {
                 break;
             }
         }
-        if let Some(Ev::T) = ev {
+        if let Some(Ev::T | Ev::TU) = ev {
             if peer_sent_transfers >= 40 {
                 break;
             }
@@ -174,13 +176,13 @@ pub async fn scenario(x: u32, link_split: bool, events: Vec<Ev>) -> Obs {
                 let _ = tx.send(SendCmd::Send { body_len: big });
                 queued.push(big);
             }
-            Some(Ev::T) => {
+            Some(Ev::T | Ev::TU) => {
                 let t = Transfer {
                     handle: Handle(rcv_our_handle),
                     delivery_id: Some(peer_sent_transfers),
                     delivery_tag: Some(serde_bytes::ByteBuf::from(peer_sent_transfers.to_be_bytes().to_vec())),
                     message_format: Some(0),
-                    settled: Some(true),
+                    settled: Some(ev != Some(Ev::TU)),
                     more: false,
                     rcv_settle_mode: None,
                     state: None,
